@@ -142,6 +142,33 @@ theorem prefix_joinD {k k' : List Name} (hk : k ≠ []) (hk' : k' ≠ []) (hc : 
   · intro ⟨t, ht, h⟩
     exact ⟨joinD t, by rw [h, joinD_append hk ht]⟩
 
+theorem splitD_clean {a : Name} (ha : dollar ∉ a) : splitD a = [a] := by
+  induction a with
+  | nil => rfl
+  | cons c t ih =>
+    have hc : c ≠ dollar := fun h => ha (h ▸ List.mem_cons_self)
+    have ht : dollar ∉ t := fun h => ha (List.mem_cons_of_mem _ h)
+    simp [splitD, hc, ih ht]
+
+theorem splitD_append {a x : Name} (ha : dollar ∉ a) : splitD (a ++ dollar :: x) = a :: splitD x := by
+  induction a with
+  | nil => simp [splitD]
+  | cons c t ih =>
+    have hc : c ≠ dollar := fun h => ha (h ▸ List.mem_cons_self)
+    have ht : dollar ∉ t := fun h => ha (List.mem_cons_of_mem _ h)
+    simp [splitD, hc, ih ht]
+
+/-- `parse_object_id` inverts `build_object_id` on delimiter-free names -/
+theorem splitD_joinD {k : List Name} (hk : k ≠ []) (hc : ∀ n ∈ k, dollar ∉ n) : splitD (joinD k) = k := by
+  induction k with
+  | nil => exact absurd rfl hk
+  | cons a t ih =>
+    cases t with
+    | nil => simpa [joinD] using splitD_clean (hc a (by simp))
+    | cons b t =>
+      simp only [joinD]
+      rw [splitD_append (hc a (by simp)), ih (by simp) (fun n hn => hc n (List.mem_cons_of_mem _ hn))]
+
 theorem lastPart_append {x n : Name} (hn : dollar ∉ n) : lastPart (x ++ dollar :: n) = n := by
   unfold lastPart
   have : (x ++ dollar :: n).reverse = n.reverse ++ dollar :: x.reverse := by simp
